@@ -13,6 +13,14 @@ def run(tier):
     ck.floor('allocation sites (function x site, summed over TUs)', sites, 200 if tier == 'quick' else 2000)
     ck.extra['allocation_sites'] = sites
     ck.extra['functions_walked'] = funs
+    # R02.7 (ir_pair, assert flavour): a block from the allocator is committed only with a capacity shown to
+    # exceed the inline capacity - otherwise the container looks inlined and the block is never released
+    from .c02 import assert_flavour
+    res7 = corpus.run_over(assert_flavour(corpus.corpus(tier)), 'svlib.rules.ir_pair', 'analyse_tu')
+    for r in res7:
+        if r['ok']:
+            r['res']['reports'] = [x for x in r['res']['reports'] if x.rule == 'R02.7']
+    irrules.aggregate(ck, res7)
     irrules.run_canaries(ck, {'ir_alloc': [('R04.1', 'canary_leak_on_throw'), ('R04.5', 'canary_free_inline')]},
                          silent=('canary_ok_alloc',))
     ck.assumptions += ['Allocator requirements: deallocate/copy/== do not throw',
@@ -25,4 +33,4 @@ def run(tier):
         'handlers, must either store the pointer and the same count into one container\'s (m_data_ptr, m_capacity) '
         'pair, return/hand the pointer over, or pass it to deallocate with the same allocator object and the same '
         'count; in constructor context a commit does not discharge an unwind exit. Decides the pairing clause per '
-        'operation; does not decide exact-once over whole histories. R04.5: only blocks obtained on the path, or the entry buffer under an established capacity > inline capacity, are handed to deallocate (never the inline buffer). R04.6: a heap buffer changes owner only together with its allocator or between containers whose allocators compared equal / are always equal.')
+        'operation; does not decide exact-once over whole histories. R04.5: only blocks obtained on the path, or the entry buffer under an established capacity > inline capacity, are handed to deallocate (never the inline buffer). R02.7: a block obtained from the allocator is committed only with a capacity that the path (with the header\'s asserts and the entry invariant capacity >= N) shows to exceed the inline capacity, so that it is recognised as an allocation and released later. R04.6: a heap buffer changes owner only together with its allocator or between containers whose allocators compared equal / are always equal.')
